@@ -1,7 +1,7 @@
 """C03 - the CSPRNG never hands out the same keystream bytes twice."""
 from . import common as C, gen_chacha as G
 
-LEAN_MODULE = ["Urandom.Props.C03", "Urandom.Props.C03T"]
+LEAN_MODULE = ["Urandom.Props.C03", "Urandom.Props.C03T", "Urandom.Props.C01R"]
 RULE = ("requests: random histories over {u32,u64,f32,f64,fill:n,jump,clone,split} (fill lengths clustered at 0,1,3,4,7,8,248..264,511..513, multi-KiB) on ChaCha8/12/20 from "
         "boundary and random (key, counter, stream), fresh and with injected buffer positions (serde: every index 0..256 and beyond); every output and the serde-visible "
         "(counter, stream, index) compared with the model. extra: every byte returned in a subset of histories is attributed to a position of the specification keystream "
